@@ -122,7 +122,7 @@ class _Lock:
         self.f.close()
 
 
-PER_HARNESS_TIMEOUT_S = int(os.environ.get("VERIF_KANI_HARNESS_TIMEOUT", "900"))
+PER_HARNESS_TIMEOUT_S = int(os.environ.get("VERIF_KANI_HARNESS_TIMEOUT", "1800"))
 CHUNK = 48
 
 
@@ -245,7 +245,7 @@ def run_batch(harnesses, jobs=None, extra=None, timeout=None, use_cache=True):
                 res.update(r); raws.append(raw); cmds.append(cmd); wall += w
             return res, "\n".join(raws), " ; ".join(cmds), wall
         jobs = classes[0] if classes else 16
-    per_harness = PER_HARNESS_TIMEOUT_S * (4 if any(h.tier == "thorough" for h in harnesses) else 1)
+    per_harness = PER_HARNESS_TIMEOUT_S * (2 if any(h.tier == "thorough" for h in harnesses) else 1)
     cmd = ["cargo", "kani"] + KANI_FLAGS + ["-Z", "unstable-options", "--harness-timeout", f"{per_harness}s",
                                             "-j", str(jobs), "--output-format", "terse", "--exact"]
     for h in harnesses:
